@@ -2,6 +2,8 @@
 package main
 
 import (
+	"runtime/debug"
+	"runtime/pprof"
 	"encoding/json"
 	"flag"
 	"fmt"
@@ -75,6 +77,14 @@ func main() {
 	var spec Spec
 	if err := json.Unmarshal(data, &spec); err != nil {
 		fatal(err)
+	}
+	if pf := os.Getenv("GOSYMX_PROF"); pf != "" {
+		f, _ := os.Create(pf)
+		pprof.StartCPUProfile(f)
+		defer pprof.StopCPUProfile()
+	}
+	if os.Getenv("GOGC") == "" {
+		debug.SetGCPercent(200)
 	}
 	out := run(&spec)
 	enc, _ := json.MarshalIndent(out, "", " ")
